@@ -88,7 +88,7 @@ def _dec_key(e):
 def gen(rng: random.Random, k: int, tier: str) -> dict:
     ws = specs.gen_workspace(rng, max_channels=2, max_samples=2, max_bins=3, n_meas=(1, 2),
                              name_prefix=rng.choice(["", "", "μ", "é_", "名"]))   # workspace names are free text
-    dup = rng.choice([None, None, None, None, "name", "values"])
+    dup = rng.choice([None, None, None, None, None, "name", "values", "verbatim", "both"])
     ps, dup = G.gen_patchset(rng, ws, dup=dup)
     # object mode: verify/apply are handed one long-lived in-memory object that is corrupted and restored
     # *in place* between calls (a user holding a workspace in a session), instead of a freshly parsed file
